@@ -419,5 +419,21 @@ func genTypesProject(r *rng.R) (pProject, []string) {
 		}
 		p.Controllers = append(p.Controllers, c)
 	}
+	if os.Getenv("VH_STD_ENUM") != "" && r.Chance(1, 3) {
+		// a field typed with a declared type of the STANDARD library's package time that is not time.Time: an enum like
+		// any other (the declaration is not printed - it is the standard library's)
+		for ti := range p.Types {
+			if p.Types[ti].Kind == "struct" && p.Types[ti].Name[0] < 'a' {
+				p.Types[ti].Fields = append(p.Types[ti].Fields, pField{Name: "Mon", Type: rng.Pick(r, []string{"time.Month", "*time.Month"}), Tag: `json:"mon"`})
+				consts := [][2]string{}
+				for i, n := range []string{"January", "February", "March", "April", "May", "June", "July", "August", "September", "October", "November", "December"} {
+					consts = append(consts, [2]string{n, fmt.Sprint(i + 1)})
+				}
+				p.Types = append(p.Types, pType{Kind: "enum", Name: "Month", Pkg: "time", File: "month.go", Base: "int", Consts: consts, External: true})
+				tags = append(tags, "std-enum-field")
+				break
+			}
+		}
+	}
 	return p, tags
 }
